@@ -1904,8 +1904,9 @@ func (ctx *RenderContext) toNumber(val interface{}) (float64, bool) {
 	case float64:
 		return v, true
 	case string:
-		// Try to parse as float64
-		if f, err := strconv.ParseFloat(v, 64); err == nil {
+		// Try to parse as float64 (decimal numbers only: ParseFloat also reads
+		// the words nan, inf and infinity, underscores and hexadecimal floats)
+		if f, err := parseDecimal(v); err == nil {
 			return f, true
 		}
 		return 0, false
